@@ -195,7 +195,8 @@ func (en *DefaultEngine) preparePersist() error {
 	}
 	st := en.pe.GetState()
 	if st != nil {
-		if en.st != nil {
+		// an earlier Exec that failed before the engine was initialized has already handed its state to the persister
+		if en.st != nil && en.st != st {
 			return errors.New("state cannot be explicitly set in both persister and engine.")
 		}
 		en.st = st
@@ -212,7 +213,7 @@ func (en *DefaultEngine) preparePersist() error {
 	}
 	if cac != nil {
 		logg.Debugf("ca", "ca", cac)
-		if en.ca != nil {
+		if en.ca != nil && en.ca != cache.Memory(cac) {
 			return errors.New("cache cannot be explicitly set in both persister and engine.")
 		}
 		en.ca = cac
